@@ -84,31 +84,93 @@ pub fn apply(img: &Disk, m: &Mutation) -> Disk {
     d.all_durable()
 }
 
-/// Independent classification of a flipped byte with the public codec: does decoding the record
-/// that contains it run past the end of the file ("eof": indistinguishable from a torn tail for
-/// the store), fail otherwise ("detectable"), or still succeed ("benign")?
-pub fn classify_flip(data: &[u8], pos: usize) -> &'static str {
-    // find the record start by parsing the *original* prefix: records before `pos` are unchanged
-    let mut start = 0usize;
-    loop {
-        let mut sl = &data[start..];
-        let before = sl.len();
-        match WALRecord::<TT>::decode(&mut sl) {
-            Ok(_) => {
-                let end = start + (before - sl.len());
-                if pos < end {
-                    return "benign";
+/// Independent, *structural* classification of a damaged record (harness Types instance:
+/// ids/votes = two big-endian u64, strings = u32 length + bytes, options = 1-byte tag, State =
+/// version byte + five options, every record = u32 type + body + 8-byte checksum). It does not
+/// consult the store's decoder for the error kind: a record is "eof" iff a correct decoder would
+/// need bytes beyond the end of the file to finish it (indistinguishable from a torn tail),
+/// "detectable" if the damage is visible within the file (bad type, tag, version, utf-8, checksum),
+/// "benign" if the record still decodes.
+pub fn classify_record(data: &[u8], start: usize) -> &'static str {
+    struct Cur<'a> {
+        d: &'a [u8],
+        p: usize,
+    }
+    impl Cur<'_> {
+        fn take(&mut self, n: usize) -> Option<&[u8]> {
+            if self.p.checked_add(n)? > self.d.len() {
+                return None;
+            }
+            let s = &self.d[self.p..self.p + n];
+            self.p += n;
+            Some(s)
+        }
+        fn u32(&mut self) -> Option<u32> {
+            self.take(4).map(|b| u32::from_be_bytes([b[0], b[1], b[2], b[3]]))
+        }
+        fn u8(&mut self) -> Option<u8> {
+            self.take(1).map(|b| b[0])
+        }
+    }
+    enum R {
+        Eof,
+        Bad,
+    }
+    fn opt_id(c: &mut Cur) -> Result<(), R> {
+        match c.u8().ok_or(R::Eof)? {
+            0 => Ok(()),
+            1 => c.take(16).map(|_| ()).ok_or(R::Eof),
+            _ => Err(R::Bad),
+        }
+    }
+    fn string(c: &mut Cur) -> Result<(), R> {
+        let n = c.u32().ok_or(R::Eof)? as usize;
+        c.take(n).map(|_| ()).ok_or(R::Eof)
+    }
+    fn walk(c: &mut Cur) -> Result<(), R> {
+        match c.u32().ok_or(R::Eof)? {
+            0 | 2 | 4 => c.take(16).map(|_| ()).ok_or(R::Eof)?,
+            1 => {
+                c.take(16).ok_or(R::Eof)?;
+                string(c)?;
+            }
+            3 => opt_id(c)?,
+            5 => {
+                if c.u8().ok_or(R::Eof)? != 1 {
+                    return Err(R::Bad);
                 }
-                start = end;
-                if start >= data.len() {
-                    return "benign";
+                for _ in 0..4 {
+                    opt_id(c)?;
+                }
+                match c.u8().ok_or(R::Eof)? {
+                    0 => {}
+                    1 => string(c)?,
+                    _ => return Err(R::Bad),
                 }
             }
-            Err(e) => {
-                return if e.kind() == std::io::ErrorKind::UnexpectedEof { "eof" } else { "detectable" };
+            _ => return Err(R::Bad),
+        }
+        c.take(8).map(|_| ()).ok_or(R::Eof)
+    }
+    let mut c = Cur { d: data, p: start };
+    match walk(&mut c) {
+        Err(R::Eof) => "eof",
+        Err(R::Bad) => "detectable",
+        Ok(()) => {
+            let mut sl = &data[start..c.p];
+            if WALRecord::<TT>::decode(&mut sl).is_ok() {
+                "benign"
+            } else {
+                "detectable"
             }
         }
     }
+}
+
+/// Class of a flip at `pos` given the record boundaries of the undamaged file.
+pub fn classify_flip(mutated: &[u8], bounds: &[usize], pos: usize) -> &'static str {
+    let start = bounds.iter().rev().find(|b| **b <= pos).copied().unwrap_or(0);
+    classify_record(mutated, start)
 }
 
 /// Reference replay of a journal image: apply exactly the records that are completely present,
@@ -384,7 +446,8 @@ fn judge_one(cx: &Ctx, spec: &Spec, info: &ImgInfo, ms: &MutSpec, stats: &mut Mu
 
     match &ms.mutation {
         Mutation::Flip { file, pos, .. } => {
-            let class = classify_flip(&img.files[file].data, *pos);
+            let ci = info.chunks.iter().position(|c| &c.1 == file).unwrap_or(0);
+            let class = classify_flip(&img.files[file].data, &info.layout[ci].0, *pos);
             match class {
                 "eof" => stats.eof_class += 1,
                 _ => stats.detectable_class += 1,
